@@ -379,6 +379,12 @@ func enumC17(tier Tier, yield func(C17Case)) {
 			for v := 0; v < c17Variants; v++ {
 				yield(C17Case{Mode: "inert", State: state, Calls: []C17Call{{Method: m.Name, Variant: v}}})
 			}
+			if m.Type.IsVariadic() {
+				// a long argument list (variants whose bits select 33+ values)
+				for _, v := range []int{40, 40 + 128*3, 40 + 128*200} {
+					yield(C17Case{Mode: "inert", State: state, Calls: []C17Call{{Method: m.Name, Variant: v}}})
+				}
+			}
 			if anyParamMethod(m) {
 				// every catalogue entry by name as the `any` argument(s)
 				for i, a := range awkwardCatalogue {
